@@ -5,7 +5,7 @@
    Conventions of the model (Model/C04_Dens.v): a parameter is a list of length 1 (scalar, broadcast by
    `bc n`) or n; `fixed` selects the repaired (true) or the unrepaired (false) formula of the defects
    that have a fix proposal; lnGamma enters through its value G = Gamma(shape) > 0. *)
-From CV Require Import Base.Tac Base.Cmp Model.C04_Dens Proofs.C04_Dens Proofs.C04_Gauss Proofs.C04_Norm Proofs.C04_More.
+From CV Require Import Base.Tac Base.Cmp Model.C04_Dens Proofs.C04_Dens Proofs.C04_Gauss Proofs.C04_Norm Proofs.C04_More Proofs.C04_Sym.
 From Coq Require Import QArith Reals Lra.
 From Coquelicot Require Import Coquelicot.
 Local Open Scope R_scope.
@@ -208,6 +208,39 @@ Theorem C04_sqrtcov_symmetric : forall (n : nat) (M : list (list Q)) (y d : list
   gauss_dense_cert FSqrtcov n M y d dcov quad n = true <-> (0 < dcov)%Q.
 Proof. exact sqrtcov_symmetric_agree. Qed.
 Print Assumptions C04_sqrtcov_symmetric.
+
+(* ---------- magnitude ---------- *)
+(* multiplying every length (mean, std, x) by c > 0 shifts the log-density by - n ln c: finite at every scale *)
+Theorem C04_normal_scale : forall (c : R) (mean std x : list R), 0 < c -> Forall (fun s => 0 < s) std ->
+  (length mean = 1%nat \/ length mean = length x) -> (length std = 1%nat \/ length std = length x) ->
+  normal_logpdf (map (Rmult c) mean) (map (Rmult c) std) (map (Rmult c) x) = normal_logpdf mean std x - INR (length x) * ln c.
+Proof. exact normal_logpdf_scale. Qed.
+Print Assumptions C04_normal_scale.
+
+Theorem C04_gaussian_scale : forall (n : nat) (logdet quad c : R),
+  gauss_canon n (logdet + 2 * INR n * ln c) quad = gauss_canon n logdet quad - INR n * ln c.
+Proof. exact gauss_canon_scale. Qed.
+Print Assumptions C04_gaussian_scale.
+
+(* ... whereas the code's log(numpy.linalg.det(.)) for dense full matrices leaves the binary64 range: the model marks
+   determinants below 2^-1080 / above 2^1030 (logpdf = +inf / -inf observed); such determinants are ordinary rationals *)
+Theorem C04_det_range_refuted : exists dcov : Q, (0 < dcov)%Q /\ det_underflow dcov = true /\ det_overflow (/ dcov) = true.
+Proof. exact det_range_refuted. Qed.
+Print Assumptions C04_det_range_refuted.
+
+(* the symmetry test of cov / prec (numpy.allclose(M, M^T), rtol 1e-5, atol 1e-8): an exactly symmetric matrix is never
+   refused, at any magnitude; a non-symmetric one is refused or accepted depending on its magnitude *)
+Theorem C04_symmetric_never_refused : forall (f : gform) (n : nat) (M : list (list Q)),
+  qsym n M = true -> gauss_sym_refused f n M = false.
+Proof. exact sym_never_refused. Qed.
+Print Assumptions C04_symmetric_never_refused.
+
+Theorem C04_symmetry_check_scale_refuted :
+  exists (M : list (list Q)) (c : Q), (0 < c)%Q /\
+    gauss_sym_refused FCov 2 M = true /\
+    gauss_sym_refused FCov 2 (qscale c M) = false /\ qsym 2 (qscale c M) = false.
+Proof. exact symmetry_check_scale_refuted. Qed.
+Print Assumptions C04_symmetry_check_scale_refuted.
 
 (* ---------- the un-normalised log-density differs from the normalised one by a constant in x ---------- *)
 Theorem C04_unnormalised_constant : forall (rank : nat) (logdet q1 q2 : R),
